@@ -72,6 +72,7 @@ type HistItem struct {
 
 // Result of one scenario.
 type Result struct {
+	Aborted     bool                      `json:"aborted,omitempty"` // the scenario's goroutine was ended by the testing package (race detected in the bubble)
 	ID          string                    `json:"id"`
 	Files       map[string]string         `json:"files"` // name -> sha256 of bytes
 	Sizes       map[string]int            `json:"sizes"`
@@ -348,19 +349,24 @@ func TestSim(t *testing.T) {
 	defer out.Close()
 	for i, sc := range j.Scenarios {
 		fmt.Fprintf(os.Stderr, "\nSCENARIO-BEGIN %d %s\n", i, sc.ID)
-		// real-time watchdog, outside any bubble: a stalled bubble is tool trouble (exit 3), never a violation
-		wd := time.AfterFunc(10*time.Minute, func() {
-			buf := make([]byte, 1<<20)
-			n := runtime.Stack(buf, true)
-			fmt.Fprintf(os.Stderr, "\nWATCHDOG scenario %d %s stalled\n%s\n", i, sc.ID, buf[:n])
-			syscall.Exit(3)
+		// Each scenario is a subtest: when the race detector fails the bubble's test, testing ends the calling
+		// goroutine (FailNow); as a subtest that ends only this scenario, and its result line is still written.
+		t.Run(fmt.Sprint(i), func(t *testing.T) {
+			res := Result{ID: sc.ID, Aborted: true, Files: map[string]string{}, Sizes: map[string]int{}}
+			defer func() {
+				fmt.Fprintf(os.Stderr, "\nSCENARIO-END %d %s\n", i, sc.ID)
+				line, _ := json.Marshal(res)
+				_, _ = out.Write(append(line, '\n'))
+			}()
+			// real-time watchdog, outside any bubble: a stalled bubble is tool trouble (exit 3), never a violation
+			wd := time.AfterFunc(10*time.Minute, func() {
+				buf := make([]byte, 1<<20)
+				n := runtime.Stack(buf, true)
+				fmt.Fprintf(os.Stderr, "\nWATCHDOG scenario %d %s stalled\n%s\n", i, sc.ID, buf[:n])
+				syscall.Exit(3)
+			})
+			defer wd.Stop()
+			res = runScenario(t, sc)
 		})
-		res := runScenario(t, sc)
-		wd.Stop()
-		fmt.Fprintf(os.Stderr, "\nSCENARIO-END %d %s\n", i, sc.ID)
-		line, _ := json.Marshal(res)
-		if _, err := out.Write(append(line, '\n')); err != nil {
-			t.Fatal(err)
-		}
 	}
 }
